@@ -85,6 +85,7 @@ type Schedule struct {
 	IdleMs  int    `json:"idle_ms"`
 	Key     []int  `json:"key"`
 	Dialler []int  `json:"dialler"` // spec connection -> dialling subscriber (as predicted by the generator)
+	Reach   []bool `json:"reach"`   // spec connection -> its dial reaches the server (false: dialled with an already cancelled ctx)
 	Steps   []Step `json:"steps"`
 	Slack   int    `json:"slack_ms"`
 }
@@ -340,6 +341,20 @@ func (r *runner) cancelSub(s int) {
 // sconnOf maps a connection of the specification (numbered in dial order, with the dialler the generator predicted)
 // to the server-side connection that arrived while that subscriber's Subscribe call was started.
 func (r *runner) sconnOf(c int) *sconn {
+	if len(r.s.Reach) > 0 {
+		// connections of the specification are numbered in dial order, the server numbers them in arrival order:
+		// the same order, minus the dials that never leave the client
+		if c < 1 || c > len(r.s.Reach) || !r.s.Reach[c-1] {
+			return nil
+		}
+		n := 0
+		for i := 0; i < c; i++ {
+			if r.s.Reach[i] {
+				n++
+			}
+		}
+		return r.sv.conn(n)
+	}
 	if c < 1 || c > len(r.s.Dialler) {
 		return nil
 	}
